@@ -18,6 +18,9 @@ IndInv ==
   /\ io \in {"read", "poll", "dead"}
   /\ srch \in {"none", "run", "done"}
   /\ pending \in {"none", "go"}
+  /\ stage \in {"idle", "accepted", "sent"}
+  \* an admitted improvement is a root move of the search that admitted it
+  /\ (io = "poll" /\ stage = "accepted" => cur >= 1 /\ cur <= root.n)
   /\ left >= 0 /\ sent >= 0 /\ nread >= 0
   /\ board.n >= 0 /\ root.n >= 0
   \* while a go is being served the search works on the board the go was given in
@@ -32,7 +35,7 @@ IndInv ==
 IndInit ==
   /\ nread = Gen(1) /\ io = Gen(1) /\ board = Gen(1) /\ table = Gen(3) /\ flagOver = Gen(1) /\ left = Gen(1)
   /\ chan = Gen(4) /\ best = Gen(1) /\ srch = Gen(1) /\ root = Gen(1) /\ sent = Gen(1) /\ started = Gen(1)
-  /\ pending = Gen(1) /\ out = Gen(3) /\ nextId = Gen(1) /\ ngo = Gen(1) /\ orphan = Gen(1)
+  /\ pending = Gen(1) /\ out = Gen(3) /\ nextId = Gen(1) /\ ngo = Gen(1) /\ owed = Gen(2) /\ stage = Gen(1) /\ cur = Gen(1)
   /\ IndInv
 
 \* what the invariant is for
